@@ -200,7 +200,7 @@ pub fn run(ctx: &Ctx) -> (Report, Meta) {
         allow_terminal: true,
         ..Default::default()
     };
-    let nrand = ctx.size(40_000, 4_000_000);
+    let nrand = ctx.size(160_000, 4_000_000);
     let mut rep = par_for(nrand, "C03", |i, rep| {
         let case_id = format!("sweep/{}", i);
         if !ctx.want(&case_id) {
